@@ -947,10 +947,24 @@ func (w *world) runCase(out *bufio.Writer, id string, limit int, req request) {
 		if err != nil {
 			code = status.Code(err).String()
 			if w.e.NumTx() != before {
-				// the transaction was created: what the controllers make of it afterwards (validation by the
-				// plugin, a wedged target, the harness cutting the wait short) is not this property's concern
-				code = "LOGGED"
 				w.dirty = true
+				// the transaction was created: what the controllers make of it afterwards (validation by the
+				// plugin failing it, a wedged target, the harness cutting the wait short) is not this property's
+				// concern; any other error after the Create is reported as it is (refused, yet logged)
+				failed := ctx.Err() != nil
+				if lt := w.lastTx(); lt != nil && (lt.Status.State == configapi.TransactionStatus_COMMITTED || lt.Status.State == configapi.TransactionStatus_APPLIED) {
+					failed = true // the error comes from building the response of a committed transaction (property C08's business)
+				}
+				for i := 0; i < 60 && !failed; i++ { // the store's List may lag behind the event the handler saw
+					if lt := w.lastTx(); lt != nil && lt.Status.State == configapi.TransactionStatus_FAILED {
+						failed = true
+					} else {
+						time.Sleep(5 * time.Millisecond)
+					}
+				}
+				if failed {
+					code = "LOGGED"
+				}
 			}
 		}
 	}()
